@@ -124,6 +124,10 @@ func (n *vkUDPNet) observe() string {
 type vkDgram struct {
 	Kind   string `json:"k"` // hit miss malf qr notify panic
 	Client int    `json:"c"`
+	// Bad: the datagram arrived from source port 0, so the kernel refuses every send to
+	// it (EINVAL) — a send fault in the middle of a batch. The other clients' replies must
+	// still go out exactly once and nothing may leak.
+	Bad bool `json:"bad,omitempty"`
 }
 
 type vkUDPCase struct {
@@ -136,7 +140,11 @@ type vkUDPCase struct {
 func (c vkUDPCase) String() string {
 	var s []string
 	for _, d := range c.Dgrams {
-		s = append(s, fmt.Sprintf("%s@%d", d.Kind, d.Client))
+		bad := ""
+		if d.Bad {
+			bad = "!port0"
+		}
+		s = append(s, fmt.Sprintf("%s@%d%s", d.Kind, d.Client, bad))
 	}
 	return fmt.Sprintf("[%s] cap=%d inline=%v sched=%v", strings.Join(s, " "), c.Cap, c.Inline, c.Sched)
 }
@@ -234,7 +242,11 @@ func (u *vkUDPRun) step(op string) string {
 			}
 			ap := u.net.clients[u.dg[d].Client].addr
 			binary.NativeEndian.PutUint16(sa[0:2], unix.AF_INET)
-			binary.BigEndian.PutUint16(sa[2:4], ap.Port())
+			port := ap.Port()
+			if u.dg[d].Bad {
+				port = 0
+			}
+			binary.BigEndian.PutUint16(sa[2:4], port)
 			a4 := ap.Addr().As4()
 			copy(sa[4:8], a4[:])
 			h.hdr.Namelen = unix.SizeofSockaddrInet4
@@ -319,8 +331,8 @@ func (u *vkUDPRun) judge(final bool) string {
 		if final {
 			for d := range u.dg {
 				f := u.frames[d]
-				if u.dg[d].Client != ci || u.status[d] != "admitted" || f.Expect == "none" || f.Expect == "panic" {
-					continue
+				if u.dg[d].Client != ci || u.status[d] != "admitted" || f.Expect == "none" || f.Expect == "panic" || u.dg[d].Bad {
+					continue // (a reply to port 0 cannot be delivered)
 				}
 				if answered[d] != 1 {
 					return fmt.Sprintf("client %s: admitted %s query (id %#04x) received %d replies", cl.tag, f.Kind, f.ID, answered[d])
@@ -555,6 +567,29 @@ func vkUDPExplore(c *vkit.Ctx, unit string, minClients int) {
 		kinds = core
 		rec(nil, 3)
 	}
+	kinds = all
+	// refused-destination family: one datagram of a 2-3 datagram burst came from port 0
+	{
+		var base [][]vkDgram
+		seqs, base = base, seqs
+		kinds = []string{"hit", "miss"}
+		rec(nil, 2)
+		rec(nil, 3)
+		kinds = all
+		seqs, base = base, seqs
+		for _, b := range base {
+			for pos := range b {
+				d := append([]vkDgram{}, b...)
+				d[pos].Bad = true
+				seqs = append(seqs, d)
+			}
+		}
+	}
+	// per-request EDNS state of a reused slab: cookie-carrying and cookie-less EDNS queries of
+	// different clients through the same slabs
+	kinds = []string{"ckhit", "edhit"}
+	rec(nil, 2)
+	rec(nil, 3)
 	kinds = all
 	stop := false
 	for si, dg := range seqs {
